@@ -179,6 +179,9 @@ def build_harness(variant="san", extra_flags=(), extra_link=(), harness_files=No
     hdir = os.path.join(VERIF, "harness")
     hsrc = sorted(glob.glob(os.path.join(hdir, "*.cpp"))) if harness_files is None else \
         [os.path.join(hdir, f) for f in harness_files]
+    if variant != "wrap":
+        # the allocation ledger needs the linker's --wrap; it is only part of the "wrap" variant
+        hsrc = [f for f in hsrc if os.path.basename(f) not in ("alloc_wrap.cpp", "ops_alloc.cpp")]
     hdrs = glob.glob(os.path.join(REPO, "include", "**", "*.h"), recursive=True) + \
         glob.glob(os.path.join(REPO, "src", "**", "*.h"), recursive=True) + \
         glob.glob(os.path.join(REPO, "src", "**", "*.hpp"), recursive=True) + \
